@@ -799,6 +799,52 @@ def _conversion_worker(job):
     return out
 
 
+def analyse_option_call(mn, fname, kwargs):
+    """`mn.fname(v, **kwargs)` for every accepted fixed-length ASCII shape v of mn.validate(): where the last character of the
+    result comes from (a generator, the source) and which characters it can be."""
+    I = get_interp()
+    S, B = I.ctx.S, I.B
+    prog = I.prog
+    rv = prog.resolve_name(prog.mods[mn], 'validate')
+    vnode = prog.mods[rv[1]].funcs[rv[2]]
+    rc = prog.resolve_name(prog.mods[mn], fname)
+    cnode = prog.mods[rc[1]].funcs[rc[2]]
+    env = Env()
+    I.ctx.scopes = [[]]
+    I.ctx.stack = [(mn, '<entry>')]
+    I.closures = []
+    I.memo = {}
+    outs = I.call_func(Func(rv[1], rv[2]), entry_args(I, vnode, env), {}, vnode, env, multi=True)
+    res = []
+    kw = {k: (Bool(v) if isinstance(v, bool) else I.from_py(v, env)) for k, v in kwargs.items()}
+    for e0, v in (outs if isinstance(outs, list) else []):
+        if not isinstance(v, Str) or not v.fixed:
+            continue
+        e = e0.copy()
+        e.frames = [{}]
+        S.refine_all(e, v, S.ASCII)
+        if e.dead:
+            continue
+        I.ctx.scopes = [[]]
+        I.ctx.stack = [(mn, '<entry>')]
+        I.closures = []
+        r = I.call_func(Func(rc[1], rc[2]), [v], dict(kw), cnode, e, multi=True)
+        alarms = [describe_event(I, ev) for ev in I.ctx.scopes[0] if not is_ve(ev.kind)]
+        for e2, v2 in (r if isinstance(r, list) else []):
+            rec = {'source': S.describe(e0, v)[:80], 'source_len': len(v.pre), 'kind': kind_of(I, e2, v2), 'alarms': alarms}
+            if isinstance(v2, Str):
+                last = v2.pre[-1] if v2.fixed and v2.pre else (v2.suf[0] if v2.suf else None)
+                rec['desc'] = S.describe(e2, v2)[:120]
+                rec['last_known'] = last is not None
+                if last is not None:
+                    ex = B.exact_chars(e2.cls(last))
+                    rec['last_chars'] = ''.join(sorted(ex)) if ex is not None else None
+                    rec['last_generators'] = sorted({f[1] for f in e2.facts if isinstance(f, tuple) and f and f[0] == 'gen2' and last in f[3]})
+                    rec['last_is_source'] = last in v.pre
+            res.append(rec)
+    return res
+
+
 def analyse_conversions(jobs_list, jobs=None):
     jobs = jobs or min(16, os.cpu_count() or 1)
     get_interp()
